@@ -60,7 +60,7 @@ func init() {
 		},
 		Run:            c17Run,
 		Replay:         c17Replay,
-		QuickBudget:    55 * time.Second,
+		QuickBudget:    240 * time.Second,
 		ThoroughBudget: 570 * time.Second,
 	})
 }
